@@ -418,7 +418,50 @@ def run_files(fields):
         shutil.rmtree(root, ignore_errors=True)
 
 
-DISPATCH = {"gjenc": run_jun, "gjdec": run_jun, "gbase": run_ip, "main": run_main, "files": run_files, "asr": run_asr, "pipe": run_pipe, "base": run_ip, "ip4": run_ip, "ip6": run_ip, "jenc": run_jun, "jdec": run_jun}
+def run_iphist(fields):
+    """["iphist"; fam; B; salt; pfx; nets; step...]: ONE anonymizer object answers a sequence of text-level requests through
+    anonymize_ip_addr; step = "a<line>" (anonymize) or "u<line>" (undo).  Output: the answers joined by \x03."""
+    from netconan import ip_anonymization as ipa
+
+    _, fam, B, salt, pfx, nets = fields[:6]
+    a = ipa.IpV6Anonymizer(salt, preserve_suffix=int(B)) if fam == "6" else ipa.IpAnonymizer(salt, _nets(pfx), _nets(nets), preserve_suffix=int(B))
+    out = []
+    for st in fields[6:]:
+        try:
+            out.append(ipa.anonymize_ip_addr(a, st[1:], st[0] == "u"))
+        except Exception as e:  # noqa
+            out.append("RAISED:" + type(e).__name__)
+    return "\x03".join(out)
+
+
+def run_seq(fields):
+    """["seq"; mode; json list of cases]: the cases are run one after the other IN THIS PROCESS; mode "drop" forces a garbage
+    collection between them (objects of earlier runs are gone), "keep" keeps every object created alive. Output: results joined by \x07."""
+    import gc
+
+    mode, cases = fields[1], json.loads(fields[2])
+    outs, keep = [], []
+    for c in cases:
+        if mode == "keep":
+            import netconan.anonymize_files as af
+            orig = af.FileAnonymizer
+
+            class K(orig):
+                def __init__(self, *a, **k):
+                    super().__init__(*a, **k)
+                    keep.append(self)
+            af.FileAnonymizer = K
+            try:
+                outs.append(DISPATCH[c[0]](c))
+            finally:
+                af.FileAnonymizer = orig
+        else:
+            outs.append(DISPATCH[c[0]](c))
+            gc.collect()
+    return "\x07".join(outs)
+
+
+DISPATCH = {"iphist": run_iphist, "seq": run_seq, "gjenc": run_jun, "gjdec": run_jun, "gbase": run_ip, "main": run_main, "files": run_files, "asr": run_asr, "pipe": run_pipe, "base": run_ip, "ip4": run_ip, "ip6": run_ip, "jenc": run_jun, "jdec": run_jun}
 
 
 def main():
